@@ -1,7 +1,10 @@
 /* C03 runtime (compiled by gcc into the driver): tape, trace recorder with event budget, watchdog, and the boring
  * reference interpreter of statement trees (see models/c03_trees.py for the tree language).
  *
- * Events:  T(k)/Z(k) -> k      C() -> 1000+bit      C2() -> 1010+v      SEL(n) -> 1020+index     V(x) -> 2000+x
+ * Events:  T(k)/Z(k) -> k      C() -> 1000+bit      C2() -> 1010+v      SEL(n) -> 1020+index     V(x) -> 2000+(x mod 9973)
+ *          typed tape bits Cc/Cl/Cf/Cd/Cld/Cp -> 1000+bit (the value returned has the operand's type; its truth value is
+ *          the bit, but testing it with the compare of another type class gives a different answer: char 0x80, a long and a
+ *          pointer with only high bits set, 0.25f, 0.5 / -0.0, 0.5L)
  * End states of one run: 0 returned, 2 event budget exhausted, 3 tape exhausted, 4 watchdog (no progress), 5 signal,
  * 6 interpreter step limit (silent loop: no events are produced any more; such a run is not judged).
  */
@@ -29,7 +32,16 @@ int Z(int k) { rec(k); return 0; }
 int C(void) { if (tpos >= tlen) siglongjmp(out_jb, ST_TAPE); int b = tape[tpos++]; rec(1000 + b); return b; }
 int C2(void) { if (tpos + 2 > tlen) siglongjmp(out_jb, ST_TAPE); int v = tape[tpos] * 2 + tape[tpos + 1]; tpos += 2; rec(1010 + v); return v; }
 int SEL(int n) { if (tpos + 2 > tlen) siglongjmp(out_jb, ST_TAPE); int v = (tape[tpos] * 2 + tape[tpos + 1]) % n; tpos += 2; rec(1020 + v); return v; }
-void V(long x) { rec(2000 + (int)x); }
+void V(long x) { rec(2000 + (int)((unsigned long)x % 9973)); }
+static int bit(void) { if (tpos >= tlen) siglongjmp(out_jb, ST_TAPE); int b = tape[tpos++]; rec(1000 + b); return b; }
+#define CL_TRUE 0x300000000L
+#define CP_TRUE 0x700000000L
+char Cc(void) { return bit() ? -128 : 0; }
+long Cl(void) { return bit() ? CL_TRUE : 0; }
+float Cf(void) { return bit() ? 0.25f : 0.0f; }
+double Cd(void) { return bit() ? 0.5 : -0.0; }
+long double Cld(void) { return bit() ? 0.5L : 0.0L; }
+void *Cp(void) { return bit() ? (void *)CP_TRUE : (void *)0; }
 
 static void on_sig(int sig) {
   if (!in_run) _exit(70);
@@ -43,8 +55,10 @@ static void watchdog(int on) {
   setitimer(ITIMER_VIRTUAL, &it, 0);
 }
 /* run one compiled function on the current tape */
+/* a defective twin may leave values on the x87 stack (long double operands): start every run from a clean FPU */
+static void fpu_reset(void) { __asm__ volatile("fninit"); }
 static void run_fn(void (*fn)(void), Trace *t) {
-  cur = t; t->n = 0; tpos = 0;
+  cur = t; t->n = 0; tpos = 0; fpu_reset();
   int st = sigsetjmp(out_jb, 1);
   if (st == 0) { in_run = 1; fn(); st = ST_RET; }
   in_run = 0;
@@ -57,7 +71,7 @@ static void show(const Trace *t) { for (int i = 0; i < t->n; i++) printf("%s%d",
 /* ---------------- reference interpreter ---------------- */
 typedef struct { short kind, a, b; short c[4]; unsigned lab; } Nd;
 enum { S_EXPR = 1, S_V, S_EMPTY, S_BREAK, S_CONT, S_RET, S_GOTO, S_CGOTO, S_IF, S_WHILE, S_DO, S_FOR, S_BLOCK, S_LABEL, S_SWITCH, S_CASE,
-       E_C = 32, E_C2, E_T, E_Z, E_AND, E_OR, E_COND, E_ELVIS, E_COMMA, E_NOT, E_STMT };
+       E_C = 32, E_C2, E_T, E_Z, E_AND, E_OR, E_COND, E_ELVIS, E_COMMA, E_NOT, E_STMT, E_CC, E_CL, E_CF, E_CD, E_CLD, E_CP };
 enum { R_NORMAL = 0, R_BRK, R_CONT, R_RETURN, R_GOTO };
 static const Nd *IN;
 static int i_seek, i_ab, i_target;
@@ -65,23 +79,32 @@ static long i_steps;
 static int i_exec(int n);
 static void i_step(void) { if (++i_steps > MAXSTEPS) siglongjmp(out_jb, ST_SILENT); }
 
-static long i_eval(int n) {
+/* A value is the pair (v, t): v = the value converted to long (what V() records, what a switch compares), t = its truth
+ * value.  For the values that occur (tape bits and marker numbers, the typed constants above) every conversion the
+ * usual arithmetic conversions of ?: can apply preserves both components, so operators only select and combine pairs. */
+typedef struct { long v; int t; } Val;
+static Val mk(long v, int t) { Val r = {v, t}; return r; }
+static Val i_eval(int n) {
   const Nd *d = &IN[n];
-  long v;
+  Val v; int b;
   i_step();
   switch (d->kind) {
-  case E_C: return C();
-  case E_C2: return C2();
-  case E_T: return T(d->a);
-  case E_Z: return Z(d->a);
-  case E_AND: v = i_eval(d->c[0]); if (i_ab || !v) return 0; v = i_eval(d->c[1]); if (i_ab) return 0; return v != 0;
-  case E_OR: v = i_eval(d->c[0]); if (i_ab) return 0; if (v) return 1; v = i_eval(d->c[1]); if (i_ab) return 0; return v != 0;
-  case E_COND: v = i_eval(d->c[0]); if (i_ab) return 0; return i_eval(v ? d->c[1] : d->c[2]);
-  case E_ELVIS: v = i_eval(d->c[0]); if (i_ab) return 0; if (v) return v; return i_eval(d->c[1]);
-  case E_COMMA: i_eval(d->c[0]); if (i_ab) return 0; return i_eval(d->c[1]);
-  case E_NOT: v = i_eval(d->c[0]); if (i_ab) return 0; return !v;
+  case E_C: b = C(); return mk(b, b);
+  case E_C2: b = C2(); return mk(b, b != 0);
+  case E_T: b = T(d->a); return mk(b, b != 0);
+  case E_Z: Z(d->a); return mk(0, 0);
+  case E_CC: b = bit(); return mk(b ? -128 : 0, b);
+  case E_CL: b = bit(); return mk(b ? CL_TRUE : 0, b);
+  case E_CF: case E_CD: case E_CLD: b = bit(); return mk(0, b);          /* (long)0.25f == (long)0.5 == (long)-0.0 == 0 */
+  case E_CP: b = bit(); return mk(b ? CP_TRUE : 0, b);
+  case E_AND: v = i_eval(d->c[0]); if (i_ab || !v.t) return mk(0, 0); v = i_eval(d->c[1]); if (i_ab) return mk(0, 0); return mk(v.t, v.t);
+  case E_OR: v = i_eval(d->c[0]); if (i_ab) return mk(0, 0); if (v.t) return mk(1, 1); v = i_eval(d->c[1]); if (i_ab) return mk(0, 0); return mk(v.t, v.t);
+  case E_COND: v = i_eval(d->c[0]); if (i_ab) return mk(0, 0); return i_eval(v.t ? d->c[1] : d->c[2]);
+  case E_ELVIS: v = i_eval(d->c[0]); if (i_ab) return mk(0, 0); if (v.t) return v; return i_eval(d->c[1]);
+  case E_COMMA: i_eval(d->c[0]); if (i_ab) return mk(0, 0); return i_eval(d->c[1]);
+  case E_NOT: v = i_eval(d->c[0]); if (i_ab) return mk(0, 0); return mk(!v.t, !v.t);
   case E_STMT:
-    if (d->c[0] >= 0) { int r = i_exec(d->c[0]); if (r != R_NORMAL) { i_ab = r; return 0; } }
+    if (d->c[0] >= 0) { int r = i_exec(d->c[0]); if (r != R_NORMAL) { i_ab = r; return mk(0, 0); } }
     return i_eval(d->c[1]);
   }
   fprintf(stderr, "interp: bad expr kind %d\n", d->kind); exit(71);
@@ -109,12 +132,12 @@ static int i_find_case(int n, long v, int *dflt) {
 #define CHECKAB do { if (i_ab) { int r_ = i_ab; i_ab = 0; return r_; } } while (0)
 static int i_exec(int n) {
   const Nd *d = &IN[n];
-  long v; int r;
+  Val v; int r;
   i_step();
   if (i_seek && !(d->lab & (1u << i_seek))) return R_NORMAL;     /* label sought is not in here: skipped */
   switch (d->kind) {
   case S_EXPR: i_eval(d->c[0]); CHECKAB; return R_NORMAL;
-  case S_V: v = i_eval(d->c[0]); CHECKAB; V(v); return R_NORMAL;
+  case S_V: v = i_eval(d->c[0]); CHECKAB; V(v.v); return R_NORMAL;
   case S_EMPTY: return R_NORMAL;
   case S_BREAK: return R_BRK;
   case S_CONT: return R_CONT;
@@ -127,11 +150,11 @@ static int i_exec(int n) {
   case S_IF:
     if (i_seek) return i_exec((IN[d->c[1]].lab & (1u << i_seek)) ? d->c[1] : d->c[2]);
     v = i_eval(d->c[0]); CHECKAB;
-    if (v) return i_exec(d->c[1]);
+    if (v.t) return i_exec(d->c[1]);
     return d->c[2] >= 0 ? i_exec(d->c[2]) : R_NORMAL;
   case S_WHILE:
     for (;;) {
-      if (!i_seek) { v = i_eval(d->c[0]); CHECKAB; if (!v) break; }
+      if (!i_seek) { v = i_eval(d->c[0]); CHECKAB; if (!v.t) break; }
       r = i_exec(d->c[1]);
       if (r == R_BRK) break;
       if (r == R_RETURN || r == R_GOTO) return r;
@@ -142,13 +165,13 @@ static int i_exec(int n) {
       r = i_exec(d->c[0]);
       if (r == R_BRK) break;
       if (r == R_RETURN || r == R_GOTO) return r;
-      v = i_eval(d->c[1]); CHECKAB; if (!v) break;
+      v = i_eval(d->c[1]); CHECKAB; if (!v.t) break;
     }
     return R_NORMAL;
   case S_FOR:
     if (!i_seek && d->c[0] >= 0) { i_eval(d->c[0]); CHECKAB; }
     for (;;) {
-      if (!i_seek && d->c[1] >= 0) { v = i_eval(d->c[1]); CHECKAB; if (!v) break; }
+      if (!i_seek && d->c[1] >= 0) { v = i_eval(d->c[1]); CHECKAB; if (!v.t) break; }
       r = i_exec(d->c[3]);
       if (r == R_BRK) break;
       if (r == R_RETURN || r == R_GOTO) return r;
@@ -162,7 +185,7 @@ static int i_exec(int n) {
     if (!i_seek) {
       int dflt = 0, id;
       v = i_eval(d->c[0]); CHECKAB;
-      id = i_find_case(d->c[1], v, &dflt);
+      id = i_find_case(d->c[1], v.v, &dflt);
       if (!id) id = dflt;
       if (!id) return R_NORMAL;
       i_seek = id;
@@ -174,7 +197,7 @@ static int i_exec(int n) {
 }
 
 static void run_interp(const Nd *nodes, int root, Trace *t) {
-  cur = t; t->n = 0; tpos = 0; IN = nodes; i_seek = 0; i_ab = 0; i_steps = 0;
+  cur = t; t->n = 0; tpos = 0; IN = nodes; i_seek = 0; i_ab = 0; i_steps = 0; fpu_reset();
   int st = sigsetjmp(out_jb, 1);
   if (st == 0) {
     in_run = 1;
